@@ -485,6 +485,27 @@ func cmdCheck(argv []string) int {
 	ts := time.Now()
 	ex.Discharge(scfg, obls)
 	solveWall := time.Since(ts).Seconds()
+	// call-site preconditions of contracts applied in this run that belong to other properties only: they are not
+	// part of this property's claim, but the postconditions used here rest on them; the ones that are not proved
+	// here are reported as unchecked assumptions of this run
+	var foreignPre []*Obligation
+	for _, ob := range ex.Obls {
+		if ob.Kind == "pre" && !hasProp(ob.Props, id) && !*allObls {
+			foreignPre = append(foreignPre, ob)
+		}
+	}
+	unprovedPre = map[string]string{}
+	if len(foreignPre) > 0 {
+		fcfg := &SolverCfg{Timeout: 5 * time.Second, WorkDir: filepath.Join(scratchRoot, "work", "q", id+"-pre"), Parallel: 16}
+		os.RemoveAll(fcfg.WorkDir)
+		ex.Discharge(fcfg, foreignPre)
+		os.RemoveAll(fcfg.WorkDir)
+		for _, ob := range foreignPre {
+			if ob.Result != "unsat" && ob.Result != "folded" {
+				unprovedPre[ob.Name] = strings.Join(ob.Props, ",")
+			}
+		}
+	}
 
 	// group by name
 	groups := map[string]*nameGroup{}
@@ -761,6 +782,9 @@ func writeReplay(id string, g *nameGroup, ex *Exec, why string) string {
 	return path
 }
 
+// call-site preconditions of applied contracts that belong to other properties and were not proved in this run
+var unprovedPre = map[string]string{}
+
 func writeEvidence(id, tier string, seed int, pc *PropCfg, ld *Loaded, ex *Exec, names []string, groups map[string]*nameGroup,
 	discharged int, knownSeen, undecided, failed, vanished, missing, underContract, trustedContracts []string, backend map[string]int, solverSecs, wall float64, violations int) {
 	var samples []interface{}
@@ -799,6 +823,12 @@ func writeEvidence(id, tier string, seed int, pc *PropCfg, ld *Loaded, ex *Exec,
 	}
 	sort.Strings(cbs)
 	trusted = append(trusted, cbs...)
+	var ups []string
+	for k, v := range unprovedPre {
+		ups = append(ups, fmt.Sprintf("precondition of an applied contract not proved at this call site (%s; it is an obligation of %s, where it is not claimed either unless listed there): the callee's postcondition is used under this assumption", k, v))
+	}
+	sort.Strings(ups)
+	trusted = append(trusted, ups...)
 	for _, t := range trustedContracts {
 		trusted = append(trusted, "assumed (unverified) contract: "+t)
 	}
